@@ -280,6 +280,8 @@ func (jr *jpegReader) readExif() (err error) {
 		if err = jr.ExifReader(jr.br, exifHeader); err != nil {
 			return err
 		}
+		// The ExifReader consumed the Exif block from the underlying reader
+		jr.discarded += exifLength
 		// Discard remaining bytes
 		remain = 0
 	}
@@ -304,8 +306,11 @@ func (jr *jpegReader) readXMP() (err error) {
 		if err = jr.XMPReader(r); err != nil {
 			return err
 		}
+		// The XMPReader consumed part of the packet from the underlying reader
+		n := int(r.(*io.LimitedReader).N)
+		jr.discarded += uint32(remain - n)
 		// Discard remaining bytes
-		remain = int(r.(*io.LimitedReader).N)
+		remain = n
 	}
 	// Discard remaining bytes
 	return jr.discard(remain)
